@@ -1,7 +1,9 @@
 //! C20 — every advertised feature set builds; serialized state round-trips losslessly.
 //! (configurations) checks/c20.sh builds the five advertised feature sets from /repo's
 //! working tree and hands the results to this binary; (round trip) the C09 pool search
-//! with a RoundTrip through CBOR / JSON / TOML evaluated in EVERY reachable state.
+//! with a RoundTrip through CBOR / JSON / TOML / a positional format evaluated in EVERY reachable state.
+
+mod positional;
 
 use mc::{json, Cmd, Report, Sink, Tier, Value};
 use serde::de::DeserializeOwned;
@@ -20,8 +22,10 @@ enum Fmt {
     Cbor,
     Json,
     Toml,
+    /// a positional, non-self-describing format in the style of bincode / postcard (positional.rs)
+    Positional,
 }
-const FMTS: [Fmt; 3] = [Fmt::Cbor, Fmt::Json, Fmt::Toml];
+const FMTS: [Fmt; 4] = [Fmt::Cbor, Fmt::Json, Fmt::Toml, Fmt::Positional];
 
 #[derive(serde::Serialize, serde::Deserialize)]
 struct Wrap<T> {
@@ -43,6 +47,10 @@ fn round_trip<T: Serialize + DeserializeOwned>(f: Fmt, t: &T, has_nonfinite: boo
             }
             let s = serde_json::to_string(t).map_err(|e| format!("json serialize: {e}"))?;
             serde_json::from_str(&s).map(Some).map_err(|e| format!("json deserialize: {e} in {s}"))
+        }
+        Fmt::Positional => {
+            let toks = positional::to_tokens(t).map_err(|e| format!("positional serialize: {e}"))?;
+            positional::from_tokens(&toks).map(Some).map_err(|e| format!("positional deserialize: {e} in {toks:?}"))
         }
         Fmt::Toml => {
             let s = toml::to_string(&Wrap { v: t }).map_err(|e| format!("toml serialize: {e}"))?;
@@ -317,10 +325,10 @@ fn main() {
     rep.exhaustive = s.counter("capped-searches") == 0;
     rep.note("searches", json!(notes));
     s.sample(json!({"check":"feature-set","sets":["default","std","std,approx","std,serde","all features"],"how":"cargo build --lib --offline of /repo's working tree for each"}));
-    s.sample(json!({"check":"roundtrip","type":"Arithmetic<f32>","history":["FromIter([0.1, 1048576.0])","Append(0, -2.5)"],"formats":["CBOR","JSON(float_roundtrip)","TOML"],"invariant":"restored == original, identical Debug (compensation terms included), identical statistics, identical continuations (append of every alphabet value, self-merge, cross-merge)"}));
-    s.sample(json!({"check":"value","what":"Interval<f64>","value":"TwoSided(-0.0, 5e-324)","formats":["CBOR","JSON","TOML"]}));
-    rep.rule = format!("configurations: the five advertised feature sets built from the working tree; round trip: BFS over pools of <=2 real registers to depth {} ({} for proportion::Stats) for Arithmetic/Geometric/Harmonic/Paired/Unpaired x f64,f32 and proportion::Stats, with every register of EVERY reachable state serialized and restored through CBOR, JSON and TOML and compared (==, Debug, all observers, one-step continuations); plus every Confidence over 12 levels x 3 kinds and Interval<f64|i32|String|usize> over value chains; distinct by (type, format, non-zero compensation)", tier.pick(3, 6), tier.pick(5, 10));
-    rep.assume("JSON cannot represent non-finite floats: such values are round-tripped through CBOR and TOML only (counted as skipped for JSON)");
+    s.sample(json!({"check":"roundtrip","type":"Arithmetic<f32>","history":["FromIter([0.1, 1048576.0])","Append(0, -2.5)"],"formats":["CBOR","JSON(float_roundtrip)","TOML","positional"],"invariant":"restored == original, identical Debug (compensation terms included), identical statistics, identical continuations (append of every alphabet value, self-merge, cross-merge)"}));
+    s.sample(json!({"check":"value","what":"Interval<f64>","value":"TwoSided(-0.0, 5e-324)","formats":["CBOR","JSON","TOML","positional"]}));
+    rep.rule = format!("configurations: the five advertised feature sets built from the working tree; round trip: BFS over pools of <=2 real registers to depth {} ({} for proportion::Stats) for Arithmetic/Geometric/Harmonic/Paired/Unpaired x f64,f32 and proportion::Stats, with every register of EVERY reachable state serialized and restored through CBOR, JSON, TOML and a positional (bincode-style, non-self-describing) format and compared (==, Debug, all observers, one-step continuations); plus every Confidence over 12 levels x 3 kinds and Interval<f64|i32|String|usize> over value chains; distinct by (type, format, non-zero compensation)", tier.pick(3, 6), tier.pick(5, 10));
+    rep.assume("JSON cannot represent non-finite floats: such values are round-tripped through CBOR, TOML and the positional format only (counted as skipped for JSON)");
     rep.assume("serde_json (float_roundtrip), toml 0.8 and ciborium are trusted to round-trip the primitives they are given");
     // (only meaningful while the Debug rendering exposes the compensation term by that name)
     rep.require(s.counter("states-exposing-a-compensation-term") == 0 || s.counter("states-with-nonzero-compensation") > 0, "no state with a non-zero compensation term was round-tripped");
